@@ -469,12 +469,29 @@ def gen_extras(rng, d, nstaves):
 
 
 def gen_score(rng, big=False):
-    np_ = rng.choice([1, 1, 2, 3])
+    np_ = rng.choice([1, 1, 2, 3, 3, 4])
     parts = [gen_part(rng, "P%d" % (i + 1), big) for i in range(np_)]
     # group structure: nested lists of part indices / groups
     ids = list(range(np_))
     struct = []
-    if np_ >= 2 and rng.random() < 0.6:
+    if np_ >= 2 and rng.random() < 0.5:
+        # arbitrary nesting: a group may be followed by further members of the enclosing group (A{B{p1}, p2}),
+        # siblings may both be groups, groups may nest three deep
+        def gen_struct(sub, depth):
+            out, i = [], 0
+            while i < len(sub):
+                if depth < 3 and rng.random() < 0.5:
+                    k = rng.randint(1, len(sub) - i)
+                    out.append({"g": [rng.choice(["brace", "bracket", None]), rng.choice(["Strings", "All", None]), depth + 1],
+                                "c": gen_struct(sub[i:i + k], depth + 1)})
+                    i += k
+                else:
+                    out.append(sub[i])
+                    i += 1
+            return out
+
+        struct = gen_struct(ids, 0)
+    elif np_ >= 2 and rng.random() < 0.6:
         k = rng.randint(1, np_ - 1)
         inner = {"g": [rng.choice(["brace", "bracket", None]), rng.choice(["Strings", None]), 1], "c": ids[:k]}
         if rng.random() < 0.4:
